@@ -124,6 +124,12 @@ class UdpRig:
 
     # ---- sending
     def send(self, port: int, data: bytes) -> None:
+        self._sends = getattr(self, "_sends", 0) + 1
+        if self._sends % 37 == 11:
+            # the network was quiet for a while before this datagram: seconds to hours of real (monotonic) time
+            from ..env import idle
+
+            idle((0.7, 1.2, 3, 9, 31, 61, 400, 3700, 90000)[(self._sends // 37) % 9])
         self.sender.sendto(data, ("127.0.0.1", port))
 
     def send_from_another_socket(self, port: int, data: bytes) -> None:
@@ -148,10 +154,11 @@ class UdpRig:
     async def wait_sentinel(self, tag: str, port: int, timeout: float = 10.0) -> str:
         """-> 'ok' | 'dropped' (kernel loss: inconclusive) | 'lost' (consumed but never delivered)."""
         ev = self.log.sentinels[tag]
+        from ..env import wait_real
+
         try:
-            await asyncio.wait_for(ev.wait(), timeout)
-            return "ok"
-        except asyncio.TimeoutError:
+            if await wait_real(ev, timeout):
+                return "ok"
             row = proc_udp_row(port)
             if row and (row["drops"] > 0 or row["rx_queue"] > 0):
                 # dropped by the kernel, or still queued because the loop was starved: no verdict either way
@@ -185,13 +192,13 @@ class Relay:
 async def _wait_all_delivered(log: EventLog, n0: int, n: int, port: int, limit_s: float = 10.0):
     """Wait (real clock, generous) until n deliveries beyond n0 were made.  -> 'ok' | 'missing' (the socket is gone or has consumed
     everything it was sent without dropping: the deliveries are not coming) | 'unknown' (kernel drops or still queued: inconclusive)."""
-    import time as _t
+    from ..env import REAL_MONOTONIC
 
-    t0, spin = _t.monotonic(), 0
+    t0, spin = REAL_MONOTONIC(), 0
     while log.deliveries - n0 < n:
         spin += 1
         await asyncio.sleep(0 if spin < 200 else 0.002)
-        if _t.monotonic() - t0 > limit_s:
+        if REAL_MONOTONIC() - t0 > limit_s:
             break
         if spin > 400 and spin % 50 == 0:
             row = proc_udp_row(port)
@@ -262,3 +269,52 @@ def second_loop_probe(make_bridge, port: int, datagrams, log: EventLog, sender):
             await asyncio.sleep(0)
 
     return asyncio.run(main())
+
+
+async def probe_bridges(rig: "UdpRig", n: int = 2):
+    """n started bridges, each on its own port with its own list as callback: [(bridge, protocol object, delivered list)]."""
+    from aioswitcher.bridge import SwitcherBridge
+
+    out = []
+    for _ in range(n):
+        port = rig.free_ports(1)[0]
+        got: List[Any] = []
+        b = SwitcherBridge(got.append, [port])
+        await b.start()
+        out.append((b, getattr(b._transports[port], "_protocol", None), got))
+    return out
+
+
+def handed_over(proto, got: List[Any], data: bytes):
+    """-> callable: hand `data` to the endpoint's protocol object as the event loop would; returns (exception name or None,
+    delivered device objects, warning texts)."""
+    def call():
+        with warnings.catch_warnings(record=True) as caught:
+            warnings.simplefilter("always")
+            del got[:]
+            exc = None
+            try:
+                proto.datagram_received(data, ("127.0.0.1", 40000))
+            except Exception as e:
+                exc = f"{type(e).__name__}: {e}"
+            return (exc, list(got), [str(w.message) for w in caught])
+    return call
+
+
+def judge_delivery(desc):
+    """desc None: nothing at all may happen; desc 'unknown': a warning, no device, no exception; else exactly that device."""
+    def j(res):
+        if not isinstance(res, tuple):
+            return f"{res!r}"
+        exc, devs, warns = res
+        if exc:
+            return f"raised {exc}"
+        if desc is None:
+            return None if not devs and not warns else f"caused {len(devs)} deliveries and warnings {warns[:1]}"
+        if desc == "unknown":
+            return None if not devs and any("unknown" in w.lower() for w in warns) else f"delivered {len(devs)} devices, warnings {warns[:1]}"
+        if len(devs) != 1:
+            return f"delivered {len(devs)} devices (warnings {warns[:1]}), want exactly one"
+        bad = rb.compare_device(devs[0], desc)
+        return None if not bad else f"delivered a device whose {bad[0][0]} is {bad[0][1]!r}, the broadcast says {bad[0][2]!r}"
+    return j
